@@ -294,4 +294,5 @@ func init() {
 	registerServerOps()
 	registerTokColOps()
 	registerTLSChainOps()
+	registerPxOps()
 }
